@@ -284,3 +284,16 @@ LEMMAS['C01/reported-matching-valid'] = dict(
           ('ensures', 'model:Model.set_lecturer_lists', {'self': 'S.model'}, NUW, ['sum-over-each-list-is-the-sum-over-the-pairs-with-that-index-for-every-weight'])],
     goals=[('requires', 'model:Model.get_results', {'self': 'S.model', 'pc': 'S.options_parser.instance_options[Instance_options.PC]'}, None,
             ['optimal-solution-is-binary', 'optimal-solution-respects-the-quotas'])])
+
+# ---- C10 -> C01/C02: what import_model leaves behind is what Solver.solve requires of the derived lists.  The three setters'
+#      postconditions (element-set view) plus the list read rule (an entry of a list is an element of it: fact schema LISTSET/iterate)
+#      give "every entry of every derived list is one of the model's pairs".
+def _read_rule(lst): return ('forall(j, 0, len(S.model.%s), forall(q, 0, len(S.model.%s[j]), ref(S.model.%s[j][q]) in elems(S.model.%s[j])))' % (lst, lst, lst, lst))
+LEMMAS['C10/derived-lists-compose'] = dict(
+    vars={'S': ('obj', 'Solver')}, theory=['listsets'],
+    hyps=['sizes_ok(S.model)', 'pairs_ok(S.model)',
+          ('ensures', 'model:Model.set_project_lists', {'self': 'S.model'}, None, ['one-list-per-project', 'project-list-holds-exactly-the-pairs-of-that-project']),
+          ('ensures', 'model:Model.set_lecturer_lists', {'self': 'S.model'}, None, ['one-list-per-lecturer', 'lecturer-list-holds-exactly-the-pairs-of-that-lecturer']),
+          ('ensures', 'model:Model.set_rank_lists', {'self': 'S.model'}, None, ['rank-list-holds-exactly-the-pairs-of-that-rank']),
+          ('list-read-rule-projects', _read_rule('project_lists')), ('list-read-rule-lecturers', _read_rule('lecturer_lists')), ('list-read-rule-ranks', _read_rule('rank_lists'))],
+    goals=[('requires', 'solver:Solver.solve', {'self': 'S'}, None, ['one-list-per-project', 'one-list-per-lecturer', 'derived-lists-hold-model-pairs'])])
